@@ -16,7 +16,6 @@ package message
 
 import (
 	"fmt"
-	"sync/atomic"
 )
 
 // A PublishMessage (PUBLISH Control Packet) is sent from a Client to a Server
@@ -240,7 +239,7 @@ func (m *PublishMessage) Encode(dst []byte) (int, error) {
 	// The packet identifier field is only present in the PUBLISH packets where the QoS level is 1 or 2
 	if m.QoS() != 0 {
 		if m.PacketID() == 0 {
-			m.SetPacketID(uint16(atomic.AddUint64(&gPacketID, 1) & 0xffff))
+			m.SetPacketID(nextPacketID())
 			//m.packetId = uint16(atomic.AddUint64(&gPacketId, 1) & 0xffff)
 		}
 
